@@ -109,9 +109,9 @@ static void case_text(ByteSource& in, CaseInfo& ci) {
     size_t n = (size_t)in.range(0, std::min<size_t>(cap, 8)); Limbs v = limbs_nz(in, n); long ex = (long)in.srange(-6, 8); bool neg = in.flag(); mpf_t x, r; mpf_init2(x, 64 * std::max<size_t>(n, 1)); mpf_init2(r, 64 * (n + 4));
     for (size_t i = 0; i < n; i++) x->_mp_d[i] = v[i]; x->_mp_size = neg ? -(int)n : (int)n; x->_mp_exp = n ? ex : 0; Int M = Int::from_limbs(v.data(), n, neg); long e2 = n ? 64 * (ex - (long)n) : 0;
     size_t nd = in.flag() ? 0 : (size_t)in.range(1, 64 * n / lb + 3); ci.label("mpf_out_str->inp_str"); ci.nontrivial = n >= 1; ci.d("mpf text base=%d n_digits=%zu ", base, nd); DESC(ci, "m=" + show(M, 40) + "*2^" + std::to_string(e2));
-    char* mem = nullptr; size_t ml = 0; FILE* fp = open_memstream(&mem, &ml); size_t w = mpf_out_str(fp, base, nd, x); fputc('\n', fp); fclose(fp); std::string s(mem, ml); free(mem);
+    char* mem = nullptr; size_t ml = 0; FILE* fp = open_memstream(&mem, &ml); bool upper = in.flag(); if (upper) ci.label("mpf_out_str:negative_base"); size_t w = mpf_out_str(fp, upper ? -base : base, nd, x); fputc('\n', fp);   /* a negative base selects upper-case digits */ fclose(fp); std::string s(mem, ml); free(mem);
     // parse "[-]0.ddd(e|@)N": exact value of what was printed
-    bool okfmt = w + 1 == s.size(); std::string t = s.substr(0, w); size_t p = 0; bool sneg = false; if (p < t.size() && t[p] == '-') { sneg = true; p++; } okfmt = okfmt && t.compare(p, 2, "0.") == 0; p += 2; std::vector<unsigned> dg; char sep = base <= 10 ? 'e' : '@'; while (okfmt && p < t.size() && t[p] != sep) { const char* q = strchr(ALPHA36, t[p]); if (!q || q - ALPHA36 >= base) { okfmt = false; break; } dg.push_back((unsigned)(q - ALPHA36)); p++; }
+    bool okfmt = w + 1 == s.size(); std::string t = s.substr(0, w); size_t p = 0; bool sneg = false; if (p < t.size() && t[p] == '-') { sneg = true; p++; } okfmt = okfmt && t.compare(p, 2, "0.") == 0; p += 2; std::vector<unsigned> dg; char sep = base <= 10 ? 'e' : '@'; while (okfmt && p < t.size() && t[p] != sep) { char ch = t[p]; if (upper && ch >= 'a' && ch <= 'z') { okfmt = false; break; } if (upper && ch >= 'A' && ch <= 'Z') ch = (char)(ch - 'A' + 'a'); const char* q = strchr(ALPHA36, ch); if (!q || q - ALPHA36 >= base) { okfmt = false; break; } dg.push_back((unsigned)(q - ALPHA36)); p++; }
     okfmt = okfmt && p < t.size() && (t[p] == (base <= 10 ? 'e' : '@')); long pe = 0; if (okfmt) pe = strtol(t.c_str() + p + 1, nullptr, 10);
     FILE* fi = fmemopen((void*)s.data(), s.size(), "r"); size_t m = mpf_inp_str(r, fi, -base); fclose(fi);   /* mpf_out_str writes the exponent in decimal: negative base for reading */
     Int PM = dg.empty() ? Int(0) : ref::from_digits(dg, base); if (sneg) PM = -PM; long pe2 = lb * (pe - (long)dg.size());   // printed value = PM * 2^pe2
@@ -184,6 +184,6 @@ static void sweep_item(uint64_t i, CaseInfo& ci) {
 namespace eng {
 PropDef g_prop = {"C17",
   "Cases: mpz_export (exact-size buffer at every misalignment 0..15, or rop=NULL with the block size checked) and mpz_import (nail bits filled with garbage, high zero words) for size 1..16, order +-1, endian -1/0/1, nails 0..8*size-1; mpz_out_raw byte layout, mpz_inp_raw round trip, arbitrary raw headers (claimed size vs bytes present, negative, zero, truncated header; claims up to 2^20); mpz/mpq/mpf out_str -> inp_str through memory streams with byte counts (mpf in power-of-two bases, value compared with the exact value of the printed string). Faults (enumerated exhaustively per generated stream): every truncation point 0..len of a raw / mpz / mpq / mpf text stream, both as end of stream and as a read error from an unbuffered fopencookie reader; every byte position 0..len-1 at which an unbuffered fopencookie writer fails, for mpz_out_raw, mpz/mpq/mpf_out_str and gmp_fprintf. Oracle: refint pack/unpack model of the manual's export/import description, byte-exact model of the raw format, round trip equality; under a fault: raw input returns 0 for every proper prefix, text input returns 0 when no digit was available and otherwise exactly the bytes/value available (a truncated digit string is itself a number), output returns 0 (gmp_fprintf -1); after each fault no leak / allocator contract breach (recording allocator) and the destination can be reassigned and cleared. Non-trivial: value >= 2 words with nails or misalignment / a fault enumeration. Distinct = hash of all decoded choices.",
-  check, setup, {"nails>0", "misaligned_buffer", "endian0", "import:garbage_in_nails", "raw:truncated", "raw:complete", "read_faults", "write_faults", "gmp_fprintf", "mpf_out_str->inp_str"}, nullptr, sweep_count, sweep_item,
+  check, setup, {"nails>0", "misaligned_buffer", "endian0", "import:garbage_in_nails", "raw:truncated", "raw:complete", "read_faults", "write_faults", "gmp_fprintf", "mpf_out_str->inp_str", "mpf_out_str:negative_base"}, nullptr, sweep_count, sweep_item,
   "mpz_export then mpz_import of every value of up to three limbs with limbs from {0,1,2^63-1,2^63,2^64-2,2^64-1} for every size 1..16, order +-1, endian -1/0/+1, nails in {0, 1, 7, 8*size-1} and buffer offsets {0,1,4}: words and count against the format model, round trip"};
 }
